@@ -490,6 +490,150 @@ def _wif_payloads(prefix, rng, n):
     return out
 
 
+# ---- the public pair in every presentation Key.__init__ accepts --------------------------------------------
+from pycoin.ecdsa.Curve import Curve as _Curve
+_CURVES = {}
+
+
+def _curve(p, a, b):
+    k = (p, a % p, b % p)
+    if k not in _CURVES:
+        _CURVES[k] = _Curve(p, a % p, b % p)
+    return _CURVES[k]
+
+
+def _on(p, a, b, x, y):
+    return (y * y - (x * x * x + a * x + b)) % p == 0
+
+
+def presentations(g, x, y):
+    """[(kind, (cp, ca, cb), object)] — every way (x, y) can be handed to Key(public_pair=...) for the key generator g:
+    tuple, list, and a Point object of every curve we can build it on: g's own curve (if on it, also unreduced),
+    secp256r1, y^2=x^3+3 and y^2=x^3+x over g's field, and the curve y^2=x^3+b' FITTED to the pair (so even a pair
+    that is on no named curve travels as a genuine, constructor-validated Point).  kind: 0 tuple, 1 list, 2 Point."""
+    out = [(0, (0, 0, 0), (x, y)), (1, (0, 0, 0), [x, y])]
+    if x is None or y is None:
+        if x is None and y is None:
+            out.append((2, (g.p(), g._a, g._b), g.infinity()))
+            out.append((2, (R1.p(), R1._a, R1._b), R1.infinity()))
+            out.append((2, (g.p(), 0, 3), _curve(g.p(), 0, 3).infinity()))
+        return out
+    p = g.p()
+    cands = [(g.p(), g._a, g._b, g), (R1.p(), R1._a, R1._b, R1), (p, 0, 3, None), (p, 1, 0, None),
+             (p, 0, (y * y - x * x * x) % p, None)]
+    seen = set()
+    for cp, ca, cb, obj in cands:
+        if (cp, ca % cp, cb % cp) in seen or not _on(cp, ca, cb, x, y):
+            continue
+        seen.add((cp, ca % cp, cb % cp))
+        c = obj if obj is not None else _curve(cp, ca, cb)
+        out.append((2, (cp, ca % cp, cb % cp), c.Point(x, y)))
+    return out
+
+
+def pair_categories(g, rng, n):
+    """[(category, x, y)] relative to the key generator g"""
+    p = g.p()
+    out = [("zero", 0, 0), ("infinity", None, None), ("half-none", None, 5), ("half-none", 5, None)]
+    toy3 = _curve(p, 0, 3)
+    for _ in range(n):
+        x, y = point_on(g, rng)
+        out += [("on", x, y), ("on", x, (p - y) % p), ("unreduced", x + p, y), ("unreduced", x, y + p), ("unreduced", x, y - p),
+                ("unreduced", x - p, y), ("unreduced", x + p, y + p), ("off", x, (y + 1) % p), ("off", (x + 1) % p, y)]
+        e = rng.randrange(1, 1 << 64)
+        m = e * g
+        if m[0] is not None:
+            out.append(("multiple", int(m[0]), int(m[1])))
+        if p == R1.p() or p == P1:
+            r = rng.randrange(1, 1 << 64) * R1
+            if not _on(p, g._a, g._b, int(r[0]), int(r[1])):
+                out.append(("r1-only", int(r[0]), int(r[1])))
+        # a point of y^2 = x^3 + 3 over g's field
+        while True:
+            xx = rng.randrange(p)
+            al = (xx * xx * xx + 3) % p
+            yy = pow(al, (p + 1) // 4, p)
+            if yy * yy % p == al:
+                break
+        if not _on(p, g._a, g._b, xx, yy):
+            out.append(("b3-only", xx, yy))
+            out.append(("b3-unreduced", xx + p, yy))
+        out.append(("random", rng.randrange(p), rng.randrange(p)))
+    return out
+
+
+def _impl_key_public_obj(g, obj):
+    k = key_class(g)(public_pair=obj)
+    pp = k.public_pair()
+    return (int(pp[0]), int(pp[1]))
+
+
+def _impl_keys_public_obj(obj):
+    k = _btc().keys.public(obj)
+    pp = k.public_pair()
+    return (int(pp[0]), int(pp[1]))
+
+
+def _arg_opt(v):
+    return "N" if v is None else arg(v)
+
+
+def presentation_cases(g, rng, n, through_network=False):
+    ga = gen_args(g)
+    for cat, x, y in pair_categories(g, rng, n):
+        for kind, (cp, ca, cb), obj in presentations(g, x, y):
+            line = "key_public_arg %s %s %s %s %s %s %s" % (ga, arg(kind), arg(cp), arg(ca), arg(cb), _arg_opt(x), _arg_opt(y))
+            yield Case(line, (lambda g=g, obj=obj: call(_impl_key_public_obj, g, obj)), meta=cat)
+            if through_network and kind != 1:
+                yield Case(line, (lambda obj=obj: call(_impl_keys_public_obj, obj)), meta=cat)
+
+
+def _outcome(f, *a):
+    try:
+        return ("ok", f(*a))
+    except Exception as ex:
+        return ("exc", type(ex).__name__)
+
+
+def chk_pair_presentations(curve, x, y):
+    """acceptance / exception type of a public pair must not depend on how it is presented, and must be
+    'on the key's curve and 0 <= x, y < p' — through Key(public_pair=...), network.keys.public(...) and the SEC round trip"""
+    g = {"secp256k1": K1, "toy251": toy_generator(251, 0, 7)}[curve]
+    p = g.p()
+    ok = x is not None and y is not None and _on(p, g._a, g._b, x, y) and 0 <= x < p and 0 <= y < p
+    want = ("ok", (x, y)) if ok else ("exc", "InvalidPublicPairError")
+    addrs = set()
+    for kind, cv, obj in presentations(g, x, y):
+        label = {0: "tuple", 1: "list", 2: "Point of curve (p=%x.., a=%d, b=%d)" % (cv[0] >> max(cv[0].bit_length() - 16, 0), cv[1] if cv[1] < 1000 else -1, cv[2] if cv[2] < 1000 else -1)}[kind]
+        got = _outcome(_impl_key_public_obj, g, obj)
+        if got != want:
+            return {"kind": "pair-accepted-off-curve" if got[0] == "ok" else "pair-wrong-outcome", "presentation": label,
+                    "got": str(got)[:200], "want": str(want)[:200]}
+        if g is K1 and kind != 1:
+            for sym in ("BTC", "LTC"):
+                net = dict(usable_nets())[sym]
+                try:
+                    k = net.keys.public(obj)
+                    got = ("ok", (int(k.public_pair()[0]), int(k.public_pair()[1])))
+                except Exception as ex:
+                    k = None
+                    got = ("exc", type(ex).__name__)
+                if got != want:
+                    return {"kind": "pair-accepted-off-curve" if got[0] == "ok" else "pair-wrong-outcome", "presentation": label,
+                            "via": sym + ".keys.public", "got": str(got)[:200], "want": str(want)[:200],
+                            "address": k.address() if k is not None else None}
+                if k is not None:
+                    if sym == "BTC":
+                        addrs.add(k.address())
+                    for c in (True, False):
+                        back = net.keys.public(k.sec(is_compressed=c))
+                        if tuple(back.public_pair()) != (x, y) or back.address(is_compressed=True) != k.address(is_compressed=True):
+                            return {"kind": "pair-sec-roundtrip", "presentation": label}
+    if len(addrs) > 1:
+        return {"kind": "pair-presentation-changes-address", "addresses": sorted(addrs)}
+    return None
+
+
 # ---- correspondence ------------------------------------------------------------------------------------
 def model_cases(rng, tier):
     quick = tier == "quick"
@@ -639,6 +783,13 @@ def model_cases(rng, tier):
     for x, y in fixed:
         yield Case("key_public %s %s %s" % (ga, arg(x), arg(y)), (lambda x=x, y=y: call(_impl_key_public, K1, x, y)))
         yield Case("key_public %s %s %s" % (ga, arg(x), arg(y)), (lambda x=x, y=y: call(_impl_keys_public, x, y)))
+    # every presentation of a pair (tuple / list / Point of its own, of another or of a fitted curve) x every category
+    for c in presentation_cases(K1, rng, 12 if quick else 300, through_network=True):
+        yield c
+    for c in presentation_cases(toy_generator(251, 0, 7), rng, 25 if quick else 400):
+        yield c
+    for c in presentation_cases(R1, rng, 3 if quick else 60):
+        yield c
     es = [-5, -1, 0, 1, 2, 3, N1 - 2, N1 - 1, N1, N1 + 1, P1, (1 << 256) - 1, 1 << 256, (1 << 256) + 1, 1 << 300, N1 // 2]
     es += [rng.getrandbits(rng.choice([8, 128, 255, 256, 257])) for _ in range(60 if quick else 1500)]
     for e in es:
@@ -878,6 +1029,10 @@ def prop_cases(rng, tier):
         if rng.random() < 0.6:
             x, y = rng.choice([(x, y + 1), (x, y - 1), (x, y + P1), (x, rng.randrange(P1)), (x + P1, y), (x, y - P1), (x, -y), (x - P1, y)])
         yield PropCase("pubpair", {"x": hex(x), "y": hex(y)}, (lambda x=x, y=y: chk_pubpair(x, y)))
+    for curve, g, n in (("secp256k1", K1, 10 if quick else 250), ("toy251", toy_generator(251, 0, 7), 15 if quick else 300)):
+        for cat, x, y in pair_categories(g, rng, n):
+            yield PropCase("pair_presentations", {"curve": curve, "x": None if x is None else hex(x), "y": None if y is None else hex(y), "category": cat},
+                           (lambda curve=curve, x=x, y=y: chk_pair_presentations(curve, x, y)))
     # strictness on the implementation: every blob that Key.from_sec accepts is canonical
     for bl in _sec_blobs_for(K1, rng, 2500 if quick else 50000, 60 if quick else 1500, 10 ** 9):
         yield PropCase("sec_strict", {"curve": "secp256k1", "sec": bl.hex()}, (lambda bl=bl: chk_sec_strict(K1, bl)))
@@ -914,6 +1069,8 @@ def replay_input(check, inp):
         return chk_key_range(inp["net"], _int(inp["e"]))
     if check == "pubpair":
         return chk_pubpair(_int(inp["x"]), _int(inp["y"]))
+    if check == "pair_presentations":
+        return chk_pair_presentations(inp["curve"], None if inp["x"] is None else _int(inp["x"]), None if inp["y"] is None else _int(inp["y"]))
     if check == "sec_strict":
         g = {"secp256k1": K1, "secp256r1": R1, "toy251": toy_generator(251, 0, 7)}[inp["curve"]]
         return chk_sec_strict(g, bytes.fromhex(inp["sec"]))
@@ -983,6 +1140,17 @@ def search(rng, tier, disagreements, known_ids):
                     for c in (True, False):
                         cands.append(PropCase("sec_roundtrip", {"net": "BTC", "se": hex(se), "c": c},
                                               (lambda se=se, c=c: chk_sec_roundtrip("BTC", se, c))))
+            elif fn == "key_public_arg":
+                xx = None if toks[8] == "N" else _tok_int(toks[8])
+                yy = None if toks[9] == "N" else _tok_int(toks[9])
+                cv = "secp256k1" if _tok_int(toks[1]) == P1 else "toy251" if _tok_int(toks[1]) == 251 else None
+                if cv:
+                    cands.append(PropCase("pair_presentations", {"curve": cv, "x": None if xx is None else hex(xx), "y": None if yy is None else hex(yy)},
+                                          (lambda cv=cv, xx=xx, yy=yy: chk_pair_presentations(cv, xx, yy))))
+                if cv != "secp256k1":
+                    for cat, x2, y2 in pair_categories(K1, rng, 3):
+                        cands.append(PropCase("pair_presentations", {"curve": "secp256k1", "x": None if x2 is None else hex(x2), "y": None if y2 is None else hex(y2)},
+                                              (lambda x2=x2, y2=y2: chk_pair_presentations("secp256k1", x2, y2))))
             elif fn == "key_private":
                 e = _tok_int(toks[2])
                 for ee in (e, e - 1, e + 1, 0, N1, (1 << 256) - 1):
